@@ -306,27 +306,35 @@ def build(cfg, world, shared=None):
         sig_universe = StaticUniverse(['EQ:' + s_ for s_ in cfg['market']['assets']])
     signals = None
     sigs = {}
+    sig_handler = handler
+    if al.get('signal_handler') == 'other_adjust' and getattr(world, 'extra', None) is None:
+        # the signals read their closes from their own data handler (same files, the other price-adjustment setting)
+        sig_handler = BacktestDataHandler(universe, data_sources=[CSVDailyBarDataSource(world.dir, None, adjust_prices=not world.adjust)])
     if al['kind'] == 'fixed':
         alpha = FixedSignalsAlphaModel(dict(al['weights']))
     elif al['kind'] == 'single':
         alpha = SingleSignalAlphaModel(universe, signal=al.get('signal', 1.0))
     elif al['kind'] == 'topn_mom':
         sigs['momentum'] = MomentumSignal(start, sig_universe, lookbacks=[al['lookback']] + list(al.get('extra_lookbacks', [])))
-        signals = SignalsCollection(sigs, handler)
+        signals = SignalsCollection(sigs, sig_handler)
         alpha = topn_class()(signals, al['lookback'], al['top'], universe, handler)
     elif al['kind'] == 'mom_sign':
         sigs['momentum'] = MomentumSignal(start, sig_universe, lookbacks=[al['lookback']])
-        signals = SignalsCollection(sigs, handler)
+        signals = SignalsCollection(sigs, sig_handler)
         alpha = MomSignAlpha(signals, al['lookback'], universe)
     elif al['kind'] == 'sma_trend':
         sigs['sma'] = SMASignal(start, sig_universe, lookbacks=[al['fast'], al['slow']])
-        signals = SignalsCollection(sigs, handler)
+        signals = SignalsCollection(sigs, sig_handler)
         alpha = SMATrendAlpha(signals, al['fast'], al['slow'], universe, short=not cfg['long_only'])
     elif al['kind'] == 'inv_vol':
         sigs['vol'] = VolatilitySignal(start, sig_universe, lookbacks=[al['lookback']])
         if al.get('with_sma'):
-            sigs['sma'] = SMASignal(start, sig_universe, lookbacks=[al['with_sma']])
-        signals = SignalsCollection(sigs, handler)
+            sma_universe = sig_universe
+            if al.get('mixed_universes'):
+                # two signals of one collection on different universes
+                sma_universe = StaticUniverse(['EQ:' + s_ for s_ in cfg['market']['assets']])
+            sigs['sma'] = SMASignal(start, sma_universe, lookbacks=[al['with_sma']])
+        signals = SignalsCollection(sigs, sig_handler)
         alpha = InvVolAlpha(signals, al['lookback'], universe)
     else:
         raise ValueError(al['kind'])
@@ -706,11 +714,24 @@ def check_c16_session(cfg, world, tr, acc):
         {a: (refmodel.parse(d) if d else 'never') for a, d in u['dates'].items()}
     if cfg['alpha'].get('signal_universe') == 'static_all':
         entries = {'EQ:' + s_: None for s_ in cfg['market']['assets']}
+    entries_all = {'EQ:' + s_: None for s_ in cfg['market']['assets']}
+    traded_entries = entries
+    other_adjust = cfg['alpha'].get('signal_handler') == 'other_adjust' and getattr(world, 'extra', None) is None
+    quote = world.alt_quote if other_adjust else world.quote
+    if other_adjust:
+        acc.count('C16:sessions_with_signals_on_their_own_data_handler')
+    if cfg['alpha'].get('mixed_universes'):
+        acc.count('C16:sessions_whose_signals_have_different_universes')
     by = {}
     for now, sid, asset, price in tr.appends:
         by.setdefault((sid, asset), []).append((py(now), price))
     names = tr.signal_names
     for sid, name in names.items():
+        entries = entries_all if (name == 'sma' and cfg['alpha'].get('mixed_universes')) else traded_entries
+        seen_assets = {a_ for (s_, a_) in by if s_ == sid}
+        for a_ in sorted(seen_assets - set(entries)):
+            V('C16', 'feed-foreign-asset/%s' % name, 'signal %s was fed prices of %s, which is not in the universe it was built on (%s)'
+              % (name, a_, sorted(entries)))
         for asset, entry in entries.items():
             obs = by.get((sid, asset), [])
             if entry == 'never':
@@ -732,7 +753,7 @@ def check_c16_session(cfg, world, tr, acc):
                 V('C16', '%s/%s' % (key, name), 'signal %s got %d observations of %s, expected %d (one per close at or '
                   'after its universe entry %s); first observed %s' % (name, n, asset, len(want_t), entry, obs[:1]))
             for t, price in obs:
-                q = world.quote(asset, t)
+                q = quote(asset, t)
                 if q is None and price != price:
                     acc.count('C16:nan_fed_where_no_bar_exists_yet')
                     continue
@@ -745,10 +766,11 @@ def check_c16_session(cfg, world, tr, acc):
     if tr.error is None:
         for sid, name in names.items():
             sig = tr.signals[name]
+            entries = entries_all if (name == 'sma' and cfg['alpha'].get('mixed_universes')) else traded_entries
             streams = {a: [p for _, p in by.get((sid, a), [])] for a in entries}
             streams = {a: v for a, v in streams.items() if all(x == x for x in v)}
             check_signal_values(name, sig, streams, LOOKBACKS[name](cfg['alpha']), acc)
-        late = [a for a, e in entries.items() if e not in (None, 'never') and e > start]
+        late = [a for a, e in traded_entries.items() if e not in (None, 'never') and e > start]
         if late:
             acc.count('C16:late_entrants', len(late))
 
@@ -973,13 +995,18 @@ def gen_cfg(rng, alpha_kinds=('fixed',), universe_kinds=('static',), max_days=25
         cfg['alpha'] = {'kind': 'sma_trend', 'fast': fast, 'slow': fast + rng.choice([1, 3, 8, 15])}
     elif ak == 'inv_vol':
         cfg['alpha'] = {'kind': 'inv_vol', 'lookback': rng.choice([2, 5, 10, 20])}
-        if rng.random() < 0.4:
+        if rng.random() < (0.7 if signal_universes else 0.4):
             cfg['alpha']['with_sma'] = rng.choice([3, 9])
         cfg['long_only'] = True
         cfg.setdefault('buffer', 0.05)
         cfg.pop('leverage', None)
     if pass_sig:
         cfg['alpha']['signal_universe'] = 'static_all'
+    elif ak == 'inv_vol' and cfg['alpha'].get('with_sma') and signal_universes and rng.random() < 0.85:
+        cfg['alpha']['mixed_universes'] = True
+    if ak in ('topn_mom', 'mom_sign', 'sma_trend', 'inv_vol') and signal_universes and rng.random() < 0.2:
+        cfg['alpha']['signal_handler'] = 'other_adjust'
+        cfg['market']['ratio'] = {s_: rng.choice([0.5, 0.83, 0.9]) for s_ in syms}
     if two_sources and rng.random() < two_sources and 'shift' not in mk:
         # a second, lower-priority data source carrying some of the same tickers at other prices, over the whole
         # period; in the first source one of those tickers only starts part-way through the session, so the handler
